@@ -44,6 +44,7 @@ def setup(rep, tier):
     rep.minimum('R15.4', 6)
     rep.minimum('R15.5', 150)
     rep.minimum('R15.7', 10)
+    rep.minimum('R15.8', 1)
 
 
 def isa_flags(prog, rel):
@@ -211,6 +212,7 @@ def check(rep, prog, tier):
         rep.unresolved('R15.3', 'only %d cross-unit call edges resolved (expected several hundred)' % nedges)
     r15_4(rep, prog)
     r15_5(rep, prog)
+    r15_8(rep, prog)
     r15_7(rep, prog)
 
 
@@ -633,6 +635,7 @@ def scalar_assigns(prog, f):
 
 
 def twin_pairs(prog):
+    seen = set()
     for name, g in sorted(prog.globals.items()):
         if not (g.get('pointee_func') and g.get('dims') and 'init' in g and g.get('defined')):
             continue
@@ -641,7 +644,87 @@ def twin_pairs(prog):
         if len(ents) < 2 or not all(prog.has_fn(e) for e in ents):
             continue
         for tw in ents[1:]:
+            seen.add((ents[0], tw))
             yield name, prog.fn(ents[0]), prog.fn(tw)
+    # kernels selected at compile time (PRESUME_xxx builds call the SIMD twin directly): paired by the naming convention X_c / X_<isa>
+    for f in sorted(prog.functions_all, key=lambda f: f.name):
+        m = _re.match(r'^(.*)_(sse|sse2|sse4_1|avx|avx2|neon|neon_intr)$', f.name)
+        if m and prog.has_fn(m.group(1) + '_c') and (m.group(1) + '_c', f.name) not in seen:
+            seen.add((m.group(1) + '_c', f.name))
+            yield 'by-name', prog.fn(m.group(1) + '_c'), f
+
+
+def _floatish(g, e):
+    e = sx.strip(e)
+    for y in sx.walk(e):
+        if sx.kind(y) == 'flt':
+            return True
+        if sx.kind(y) == 'local':
+            l = g.locals.get(y[2])
+            if l and 'bits' not in l and '*' not in l['type'] and '[' not in l['type'] and '__m' not in l['type']:
+                return True
+    return False
+
+
+def float_conditions(prog, f):
+    """NaN-sensitive branch conditions of a kernel: every comparison with a floating-point operand that occurs in a branch
+    condition, with the parity of the negations above it.  `!(a > b)` and `a <= b` are different entries: they differ
+    exactly for NaN."""
+    out = {}
+
+    def visit(g, e, neg, where):
+        e = sx.strip(e)
+        k = sx.kind(e)
+        if k == 'un' and e[1] == '!':
+            return visit(g, e[2], not neg, where)
+        if k == 'bin' and e[1] in ('&&', '||'):
+            visit(g, e[2], neg, where)
+            visit(g, e[3], neg, where)
+            return
+        if k == 'bin' and e[1] in ('<', '<=', '>', '>=', '==', '!='):
+            if any(sx.kind(x) == 'call' and (sx.callee_name(x) or '').startswith(('_mm', '__builtin_ia32')) for x in sx.walk(e)):
+                return
+            if not (_floatish(g, e[2]) or _floatish(g, e[3])):
+                return
+            op, a, b = e[1], sx.show(e[2]), sx.show(e[3])
+            if op in ('>', '>='):
+                op, a, b = {'>': '<', '>=': '<='}[op], b, a
+            out[('not ' if neg else '') + '%s %s %s' % (a, op, b)] = where
+    for g in _closure(prog, f):
+        cf = cfgm.CFG(g)
+        for b in cf.blocks:
+            c = cf.cond(b)
+            if c is not None:
+                visit(g, c, False, '%s:%s' % (g.file, sx.line(c) or cf.blocks[b].get('term', {}).get('l')))
+    return out
+
+
+def r15_8(rep, prog):
+    """twin kernels take the same NaN-sensitive decisions: for every (C kernel, SIMD twin) pair whose sets of scalar
+    floating-point branch comparisons agree on the reference tree (frozen in spec/c15_twin_scalars.json), they must keep
+    agreeing.  Rewriting `!(x > a && x < b)` as `x <= a || x >= b` in one twin changes what it does with NaN input."""
+    try:
+        spec = _json.load(open(TWIN_SPEC))
+    except (OSError, ValueError):
+        raise AnalysisBroken('spec/c15_twin_scalars.json missing')
+    want = spec.get('float_conditions', {}).get(prog.config.split('+')[0])
+    if want is None:
+        return 0
+    n = 0
+    for tname, c0, tw in twin_pairs(prog):
+        if '%s|%s' % (c0.name, tw.name) not in want:
+            continue
+        n += 1
+        rep.functions.add(tw.name)
+        a, b = float_conditions(prog, c0), float_conditions(prog, tw)
+        inst = '%s:%s and %s branch on the same floating-point comparisons' % (prog.config, c0.name, tw.name)
+        if set(a) == set(b):
+            rep.holds('R15.8', inst, tw.where(), '%d comparison(s)' % len(a))
+        else:
+            oa, ob = sorted(set(a) - set(b)), sorted(set(b) - set(a))
+            rep.violated('R15.8', inst, b[ob[0]] if ob else a[oa[0]], 'only in %s: %s; only in %s: %s - the two kernels decide differently for NaN (or for the changed bound), so they cannot be bit-identical on every input' % (
+                c0.name, oa or '-', tw.name, ob or '-'), key='%s:%s:float-conditions' % (c0.name, tw.name))
+    return n
 
 
 def r15_5(rep, prog):
@@ -688,5 +771,11 @@ if __name__ == '__main__':
             if names:
                 d['%s|%s' % (c0.name, tw.name)] = names
         out[cfg] = d
+        fc = []
+        for tname, c0, tw in twin_pairs(p):
+            a, b = float_conditions(p, c0), float_conditions(p, tw)
+            if a and set(a) == set(b):
+                fc.append('%s|%s' % (c0.name, tw.name))
+        out.setdefault('float_conditions', {})[cfg] = sorted(set(fc))
     _json.dump(out, open(TWIN_SPEC, 'w'), indent=1, sort_keys=True)
-    print({c: sum(len(v) for v in d.values()) for c, d in out.items()})
+    print({c: sum(len(v) for v in d.values()) for c, d in out.items() if c != 'float_conditions'}, out['float_conditions'])
